@@ -154,7 +154,7 @@ SPEC = {
                         "arrive is decided by the oracle"],
     },
     "C14": {
-        "LEAN": {"modules": ["GfaProofs.Bridge.Seq", "GfaProofs.C14", "GfaProofs.C14Paths", "GfaProofs.C14Cover", "GfaProofs.C14Merge", "GfaProofs.C14MergeEnds", "GfaProofs.C14Frame", "GfaProofs.C16"],
+        "LEAN": {"modules": ["GfaProofs.Bridge.Seq", "GfaProofs.Bridge.Canonical", "GfaProofs.C14", "GfaProofs.C14Paths", "GfaProofs.C14Cover", "GfaProofs.C14Merge", "GfaProofs.C14MergeEnds", "GfaProofs.C14Frame", "GfaProofs.C16"],
                  "support": ["GfaModel.Seq", "GfaModel.LinearPaths", "GfaModel.MergeGraph"],
                  "theorems": ["Gfa.C14Merge.mergePath_closed", "Gfa.C14Merge.mergePath_nodup", "Gfa.C14Merge.mergePath_members_gone",
                               "Gfa.C14Merge.mergeAll_closed", "Gfa.C14Merge.mergeAll_nodup", "Gfa.C14Merge.mergePath_steps",
@@ -168,7 +168,7 @@ SPEC = {
                               "Gfa.C14.linearPath_names", "Gfa.C14.traverse_chain", "Gfa.C14.otherEnds_sym", "Gfa.C14.joined_unique",
                               "Gfa.C14.rc_rc", "Gfa.C14.rc_length", "Gfa.C14.rc_append", "Gfa.C14.spell_length", "Gfa.C14.spell_prefix",
                               "Gfa.C14.wcc_involutive_table", "Gfa.Bridge.Seq.wcc_table", "Gfa.Bridge.Seq.wcc_dropped",
-                              "Gfa.Bridge.Seq.cut_samples", "Gfa.C16.component_iff_chain"]},
+                              "Gfa.Bridge.Seq.cut_samples", "Gfa.Bridge.Canonical.segLength_eq", "Gfa.C16.component_iff_chain"]},
         "ASSUMPTIONS": ["linear_paths/linear_path are modelled statement by statement (GfaModel/LinearPaths.lean) and compared with the library on whole "
                         "graphs (exact order and orientation); proved: every returned path is a chain whose consecutive members are joined by a dovetail "
                         "that is the only dovetail on both joined ends, has >= 2 members, no segment occurs twice in or across paths (linearPaths_chains, "
